@@ -18,7 +18,7 @@ RULE = ('Hypothesis-generated netlists x stimuli x m in {2,4,8} x {c_reuse} x {s
         'value an own line-level evaluator predicts; (b) a callback that does nothing leaves all results equal to inject_cb=None; (c) a callback '
         'that overwrites line L gives (also on a simulator restored from a pickle or a deepcopy), at all outputs and state elements, the results of the own evaluator with L cut and driven by the replacement '
         'values (also through cycle()). non-trivial: L has an output in its fan-out and one outside it and the replacement differs from the natural '
-        'value in some lane; distinct by SHA-1 of the case.')
+        'value in some lane; distinct by SHA-1 of the case. One case in 25 has 100-150 gates (>= 256 lines).')
 ASSUMPTIONS = ['callback identity accepted as a Line object or a plain line index (operator.index)',
                'line-level reference evaluator in this file walks the Circuit built through the public API']
 
@@ -26,7 +26,8 @@ ASSUMPTIONS = ['callback identity accepted as a Line object or a plain line inde
 @st.composite
 def cases(draw, tier):
     big = tier == 'thorough'
-    nl = draw(S.netlists(max_g=24 if big else 10, max_pi=5, max_st=2, need_d=True))
+    large = draw(st.integers(0, 24)) == 0              # occasionally 100-150 gates (several hundred lines, among them floating gate outputs)
+    nl = draw(S.netlists(max_g=150 if large else (24 if big else 10), min_g=100 if large else 0, max_pi=5, max_st=2, need_d=True))
     m = draw(st.sampled_from([2, 4, 8]))
     sims = draw(st.integers(1, 12))
     n = nl['pi'] + len(nl['st'])
@@ -67,6 +68,8 @@ class LineEval:
             v = rm.dec(self.st_codes[self.st[i]])
             return rm.mv_not(v) if (pin == 1 and self.nl['st'][self.st[i]]['t'] == 'D') else v
         if n.kind == '__fork__':
+            if len(n.ins) == 0 or n.ins[0] is None:
+                return (0, 0, 0)                   # floating net: constant 0
             return self.line(n.ins[0])
         k = self.g[i]
         g = self.nl['g'][k]
@@ -166,11 +169,14 @@ def prop(case):
 
     s1 = fresh(); s1.s_to_c(); s1.c_prop(inject_cb=as_callback(rec)); s1.c_to_s()
     expected_lines = set()
+    optional = set()
     for l in c.lines:
         if case['strip_forks'] and l.driver.kind == '__fork__' and id(l.driver) not in pi_forks:
+            if len(l.driver.ins) == 0 or l.driver.ins[0] is None:
+                optional.add(l.index)       # a floating net (constant 0) behind a stripped fork: whether that counts as evaluated is left open
             continue
         expected_lines.add(l.index)
-    if sorted(calls) != sorted(expected_lines):
+    if sorted(set(calls) - optional) != sorted(expected_lines) or len(calls) != len(set(calls)):
         missing = sorted(expected_lines - set(calls)); extra = sorted(set(calls) - expected_lines)
         dup = sorted({x for x in calls if calls.count(x) > 1})
         raise Violation(f'm={m}: callback invoked for {len(calls)} lines; not called for {missing[:8]}, unexpected {extra[:8]}, repeated {dup[:8]}')
@@ -260,6 +266,7 @@ def prop(case):
     if case['strip_forks']: labels.append('strip_forks')
     if case['c_reuse']: labels.append('c_reuse')
     if cycles: labels.append('through_cycle')
+    if len(b.c.lines) >= 256: labels.append('>=256_lines')
     if case.get('copied'): labels.append('simulator_pickled_or_copied')
     if case.get('cbform'): labels.append(['', 'callback_bound_method', 'callback_partial', 'callback_callable_container'][case['cbform']])
     if differs: labels.append('replacement_differs')
